@@ -10,15 +10,57 @@ def normPanic (obs : String) : String :=
     | [] => []
   " ".intercalate (go (obs.splitOn " "))
 
+/-- Compile errors are compared by variant and constructor name (the payload is Rust's derived
+    `Debug` text, whose escaping of unusual characters is not modelled). -/
+def normCerr (obs : String) : String :=
+  let rec go : List String → List String
+    | "CERR" :: v :: payload :: _ =>
+      let name := match Sx.textOfHex payload with
+        | some t => String.ofList (t.takeWhile (· ≠ '('))
+        | none => payload
+      ["CERR", v, name]
+    | x :: xs => x :: go xs
+    | [] => []
+  " ".intercalate (go (obs.splitOn " "))
+
+/-- Outcome class of an observation: `OK`/`ERR`/`PANIC stage`, and for compile requests
+    `COK`/`CERR`/`PANIC stage` after the bar. -/
+def obsClass (obs : String) : String :=
+  let cls (s : String) : String :=
+    match s.splitOn " " with
+    | "PANIC" :: st :: _ => "PANIC " ++ st
+    | c :: _ => c
+    | [] => ""
+  match obs.splitOn " | " with
+  | [a] => cls a
+  | a :: b :: _ => cls a ++ " | " ++ cls b
+  | [] => ""
+
 /-- The part of an observation that a property's correspondence compares (so that a defect or
     rewrite elsewhere does not break a property it has nothing to do with). -/
 def projectObs (prop : String) (req : List String) (obs : String) : String :=
   match prop, req with
   | "C19", "T" :: _ => (splitBar obs).1
-  | _, _ => obs
+  | "C19", _ => obs
+  | "C02", _ => obs
+  | "C04", _ => obs
+  | "C09", _ => obs
+  | "C10", _ => obs
+  | "C11", _ => obs
+  | "C12", _ => obs
+  | "C15", _ => obs
+  | "C16", _ => obs
+  | "C20", _ => obs
+  | "C03", _ => obsClass obs
+  | "C17", _ => obsClass obs
+  | "C18", _ => (splitBar obs).1
+  -- the other parser-side properties compare the parse result, an error only as "rejected"
+  | _, _ =>
+    let p := (splitBar obs).1
+    if p.startsWith "ERR " then "ERR" else p
 
 /-- One line `request TAB profile observation` ↦ verdict line. -/
-def handleLine (prop : String) (line : String) : String :=
+def handleLine (prop : String) (st : DState) (line : String) : DState × String :=
   match line.splitOn "\t" with
   | [req, obsFull] =>
     let (pfS, obs) := match obsFull.splitOn " " with
@@ -27,30 +69,32 @@ def handleLine (prop : String) (line : String) : String :=
     let pf := profileOf pfS
     let reqParts := req.splitOn " "
     let reqCore := reqParts.filter (fun p => !p.startsWith "#")
-    let obs := normPanic obs
+    let obs := normCerr (normPanic obs)
     let diff : Option String := match modelObs pf reqCore obs with
       | .skip why => some ("SKIP " ++ why)
       | .obs m =>
         let a := projectObs prop reqCore obs
-        let b := projectObs prop reqCore (normPanic m)
+        let b := projectObs prop reqCore (normCerr (normPanic m))
         if a = b then none else some s!"DIFF impl=[{a}] model=[{b}]"
-    match propCheck prop reqParts obs, diff with
+    let (st', pc) := propCheck prop st reqParts obs
+    (st', match pc, diff with
     | some why, some d => s!"PFAIL {prop} {why} ;; {d}"
     | some why, none => s!"PFAIL {prop} {why}"
     | none, some d => d
-    | none, none => "OK"
-  | _ => "SKIP malformed"
+    | none, none => "OK")
+  | _ => (st, "SKIP malformed")
 
-partial def loop (prop : String) (h : IO.FS.Stream) (out : IO.FS.Stream) : IO Unit := do
+partial def loop (prop : String) (st : DState) (h : IO.FS.Stream) (out : IO.FS.Stream) : IO Unit := do
   let line ← h.getLine
   if line.isEmpty then return ()
   let l := if line.back = '\n' then (line.dropEnd 1).toString else line
-  out.putStrLn (handleLine prop l)
-  loop prop h out
+  let (st', v) := handleLine prop st l
+  out.putStrLn v
+  loop prop st' h out
 
 def main (args : List String) : IO UInt32 := do
   let prop := args.headD "ALL"
   let stdin ← IO.getStdin
   let stdout ← IO.getStdout
-  loop prop stdin stdout
+  loop prop {} stdin stdout
   return 0
